@@ -376,6 +376,57 @@ def handle (st : St) (j : Json) : D (St × Json) := do
     | "mark" => return (st, eRes eMark (S.markOfJ jj))
     | "step" => return (st, eRes eStep (S.stepOfJ 100000 jj))
     | _ => throw "bad fromJson kind"
+  -- ---------------- C15: filling and wrapping
+  | "fill" =>
+    let S ← getSchema st j
+    let d := S.dfa (← nat (← field j "ty"))
+    let q ← nat (← field j "q")
+    let after ← listOf nat (← field j "after")
+    let toEnd ← bool (← field j "toEnd")
+    let gen := fun t => S.generatable t
+    let model := fillBefore d gen q after toEnd
+    let implJ := fieldD j "impl" Json.null
+    let implOk ← match implJ with
+      | .null => pure Json.null
+      | x => do pure (Json.bool (isFill d gen q after toEnd (← listOf nat x)))
+    return (st, ok (Json.mkObj [("model", match model with
+      | some l => eNats l
+      | none => Json.null), ("implIsFill", implOk),
+      ("modelIsFill", match model with
+        | some l => Json.bool (isFill d gen q after toEnd l)
+        | none => Json.null)]))
+  | "wrap" =>
+    let S ← getSchema st j
+    let d := S.dfa (← nat (← field j "ty"))
+    let q ← nat (← field j "q")
+    let target ← nat (← field j "target")
+    let model := findWrapping S d q target
+    let implJ := fieldD j "impl" Json.null
+    let implOk ← match implJ with
+      | .null => pure Json.null
+      | x => do pure (Json.bool (isWrapChain S d q target (← listOf nat x)))
+    return (st, ok (Json.mkObj [("model", match model with
+      | some l => eNats l
+      | none => Json.null), ("implIsChain", implOk)]))
+  -- ---------------- C11 / C12 / C18 monitors on steps emitted by the real code
+  | "monitor" =>
+    let d ← node (← field j "doc")
+    let toksD := ftoks d.kids
+    let steps ← listOf step (← field j "steps")
+    let k ← str (← field j "k")
+    match k with
+    | "respects" =>
+      let f ← nat (← field j "from")
+      let t ← nat (← field j "to")
+      let req ← slice (← field j "slice")
+      return (st, ok (Json.arr (steps.map (fun s => Json.bool (respects toksD f t req s))).toArray))
+    | "structural" =>
+      return (st, ok (Json.arr (steps.map (fun s => Json.bool (isStructuralAt d s))).toArray))
+    | "inside" =>
+      let a ← nat (← field j "a")
+      let b ← nat (← field j "b")
+      return (st, ok (Json.arr (steps.map (fun s => Json.bool (insideNode a b s))).toArray))
+    | _ => throw "bad monitor kind"
   | "toks" =>
     let d ← node (← field j "doc")
     return (st, ok (jn d.toks.length))
